@@ -81,6 +81,8 @@ impl EnvSpec {
 #[derive(Default)]
 pub struct Shared {
     pub log: Mutex<Vec<(String, Value, usize)>>,
+    /// when set, every harness function declares the opposite of `spec.cacheable` (a function's own, current answer)
+    pub flip: std::sync::atomic::AtomicBool,
 }
 
 pub struct YieldOnce(bool);
@@ -133,7 +135,7 @@ impl UserFunction for HFn {
         self.name
     }
     fn cacheable(&self) -> bool {
-        self.spec.cacheable
+        self.spec.cacheable != self.shared.flip.load(std::sync::atomic::Ordering::SeqCst)
     }
 }
 
